@@ -24,6 +24,7 @@ from .core import (Interp, TupleV, Closure, FuncRef, ClassRef, ExtRef, ObjV, Bou
 from .loader import Inconclusive, norm, dotted_of
 
 NONE = ("const", None)
+VALUE_IDENTITY_EXT = {"numpy.asarray", "numpy.asanyarray"}
 CLOSURES = {}      # (line, col) -> Closure, so that rules can look into lambda bodies
 OPS = {ast.Add: "+", ast.Sub: "-", ast.Mult: "*", ast.Div: "/", ast.FloorDiv: "//", ast.Mod: "%", ast.Pow: "**",
        ast.MatMult: "@", ast.BitAnd: "&", ast.BitOr: "|", ast.BitXor: "^", ast.LShift: "<<", ast.RShift: ">>"}
@@ -325,6 +326,10 @@ class Sym(Interp):
         return (("$draw", ("const", self._draws)),)
 
     def h_call_ext(self, d, n, args, kwargs, env, ctx):
+        if d in VALUE_IDENTITY_EXT and len(args) == 1 and not kwargs and not (isinstance(args[0], tuple) and args[0] and args[0][0] == "*"):
+            # np.asarray(x): the same values (and, for arrays, the same object - aliasing is the ownership domain's business)
+            self.fact("call", ctx, n, env, target=d, args=[T(args[0])], kwargs={}, callkind="ext", result=T(args[0]), rawargs=list(args))
+            return args[0]
         impure = d in IMPURE_EXT or (d.startswith("numpy.random.") and d not in ("numpy.random.default_rng", "numpy.random.seed",
                                                                                   "numpy.random.RandomState", "numpy.random.Generator"))
         t = ("ext", d, self.argt(args), self.kwt(kwargs) + (self.draw_tag() if impure else ()))
